@@ -178,3 +178,61 @@ func FlowBad(k []byte, p []byte) ([]byte, error) {
 func FlowBadReturn(k []byte) ([]byte, error) {
 	return with(k, func(b []byte) ([]byte, error) { return b, nil })
 }
+
+// ---- lock balance ----
+
+func (g *Guarded) BalOk() int {
+	g.mu.RLock()
+	defer g.mu.RUnlock()
+	return g.n
+}
+
+func (g *Guarded) BalBadLeak(x int) int {
+	g.mu.Lock()
+	if x > 0 {
+		return g.n // lock leaked on this path
+	}
+	g.mu.Unlock()
+	return 0
+}
+
+func (g *Guarded) BalBadMismatch() {
+	g.mu.RLock()
+	g.mu.Unlock()
+}
+
+// ---- contradiction: dereference of a value known nil ----
+
+func ContraOk(err error) string {
+	if err != nil {
+		return err.Error()
+	}
+	return ""
+}
+
+func ContraBad(err error) string {
+	if !(err != nil) {
+		return err.Error()
+	}
+	return ""
+}
+
+// ---- loop variable alias (this module is go 1.21: one variable per loop) ----
+
+type ent struct{ Region string }
+
+func LoopAliasOk(es []ent) map[string]ent {
+	m := map[string]ent{}
+	for _, e := range es {
+		m[e.Region] = e
+	}
+	return m
+}
+
+func LoopAliasBad(es []ent) map[string]*ent {
+	m := map[string]*ent{}
+	for _, e := range es {
+		m[e.Region] = &e
+	}
+	return m
+}
